@@ -59,6 +59,9 @@ RULE = (
     "record without the four timing columns | fitted-parameter digest of a saved strategy) + "
     "sorted registry of results.pickle; a merged state is re-expanded only with a smaller crash "
     "count, executed transitions are cached per (state, options, crash). Nothing is sampled. "
+    "Cases with reuse=true (F <= 2 quick / 4 thorough): every two-run history (options x every "
+    "crash point) -> (options) executed with ONE Orchestrator object for both runs and with a new "
+    "object per run; calls per run and final store must coincide. "
     "non-trivial = executed transition; distinct by (configuration, state, options, crash). "
     "VERIF_SEED only rotates the tag family: value offset, label alphabet, DataFrame index kind "
     "of the RAM panels."
@@ -164,6 +167,13 @@ def gen_cases(tier, seed):
     # simplest first
     for _, c in sorted(big, key=lambda fc: fc[0]):
         yield c
+    # ONE Orchestrator object used for all runs of a history vs a new one per run
+    for kind, confs in (("hdd", hdd), ("ram", ram)):
+        for task, nd, ns, cv in confs:
+            F = nd * ns * N_FOLDS[cv]
+            if F <= (2 if tier == "quick" else 4) and not cv.startswith("presplit"):
+                yield dict(kind=kind, task=task, nd=nd, ns=ns, cv=cv, fam=fam, L=2, B=1,
+                           first=None, reuse=True)
 
 
 def prepare(tier, seed):
@@ -429,6 +439,8 @@ class Ctx:
     def __init__(self, case):
         self.case = {k: case[k] for k in ("kind", "task", "nd", "ns", "cv", "fam", "L", "B",
                                           "first")}
+        if case.get("reuse"):
+            self.case["reuse"] = True
         self.kind, self.task, self.cv, self.fam = case["kind"], case["task"], case["cv"], \
             case["fam"]
         self.uea = self.cv.startswith("presplit")
@@ -1091,6 +1103,65 @@ def _search(ctx, J, L, B):
             break
 
 
+def _play_reuse(ctx, history, shared):
+    """run a history; shared: one Orchestrator (and results) object for all runs"""
+    from sktime.benchmarking.orchestration import Orchestrator
+    from sktime.benchmarking.results import HDDResults, RAMResults
+
+    hdd = ctx.kind == "hdd"
+    if hdd:
+        _restore(ctx.tmp, {})
+    results = HDDResults(path=ctx.tmp) if hdd else RAMResults()
+    orch, trace = None, []
+    for O, crash in history:
+        if orch is None or not shared:
+            tasks, datasets, strategies, cv = ctx.make()
+            if hdd and orch is not None:
+                results = HDDResults(path=ctx.tmp)
+            orch = Orchestrator(tasks, datasets, strategies, cv, results)
+        _reset_calls(crash)
+        out = call(orch.fit_predict, **dict(zip(OPT_NAMES, map(bool, O))))
+        _G.crash = None
+        kind = out.kind if (out.ok or not out.is_a(Boom)) else "Boom"
+        trace.append((kind, _G.nfit, _G.npred))
+    final = _canon(ctx, _snapshot(ctx.tmp)) if hdd else _ram_canon(results)
+    return trace, final
+
+
+def _reuse(ctx, J, only=None):
+    """every history (O1, crash<=1) -> (O2) executed with one Orchestrator object must leave the
+    same store and perform the same numbers of fits / predicts as with a new object per run
+    (which the main search judges against the reference)"""
+    res = J.res
+    if only is not None:
+        only = [(tuple(o), tuple(c) if c else None) for o, c in only]
+    for O1 in OPTS:
+        base, _ = _play_reuse(ctx, [(O1, None)], False)
+        crashes = [None] + [("fit", k) for k in range(1, base[0][1] + 1)] + \
+            [("predict", k) for k in range(1, base[0][2] + 1)]
+        for c1 in crashes:
+            for O2 in OPTS:
+                hist = [(O1, c1), (O2, None)]
+                if only is not None and hist != only:
+                    continue
+                a = _play_reuse(ctx, hist, False)
+                b = _play_reuse(ctx, hist, True)
+                res.transitions += 4
+                res.states += 1
+                res.nt((tuple(sorted(ctx.case.items(), key=str)), O1, c1, O2))
+                res.outcome("reuse:%s:%s" % (ctx.kind, b[0][-1][0]))
+                if a[0] != b[0]:
+                    J.v("reuse:orchestrator:calls", "a second fit_predict on the SAME Orchestrator "
+                        "object performs other fits / predicts than a new Orchestrator on the "
+                        "same store", hist, expected=a[0], observed=b[0])
+                    return
+                if a[1] != b[1]:
+                    J.v("reuse:orchestrator:store", "the store after a second fit_predict on the "
+                        "SAME Orchestrator object differs from that left by a new Orchestrator",
+                        hist)
+                    return
+
+
 def _replay(ctx, J, history):
     """exactly one history, judged at every step (the 'plain unit test' form)"""
     res = J.res
@@ -1123,7 +1194,9 @@ def run_case(case):
     base = "/dev/shm" if os.path.isdir("/dev/shm") and os.access("/dev/shm", os.W_OK) else None
     ctx.tmp = tempfile.mkdtemp(prefix="c19_", dir=base)
     try:
-        if case.get("history") is not None:
+        if case.get("reuse"):
+            _reuse(ctx, J, case.get("history"))
+        elif case.get("history") is not None:
             _replay(ctx, J, case["history"])
         else:
             _search(ctx, J, case["L"], case["B"])
